@@ -30,6 +30,9 @@ OBLIGATIONS = krow_reader_obligations() + [
     Obl(name="count_pure_ws", module="h_repl", func="count_pure_ws", shadow=True, timeout=300, replay="r_h_repl:count_pure_ws", weight=30,
         bounds="replace(pattern, formatted=True) in count mode on a raw text node of <= 3 characters over {a, space, tab}",
         encodes=["src/odfdo/element.py:Element.replace (count mode)"], stubs=["/verif/shadow/lxml (symdom)"]),
+    Obl(name="nr_read_is_pure", module="h_nrange", func="nr_read_is_pure", shadow=True, timeout=400, replay="r_h_nrange:nr_read_is_pure", weight=60,
+        bounds="wrapping a stored named range (what every named-range lookup does) leaves its node untouched",
+        encodes=["src/odfdo/table.py:NamedRange.__init__"], stubs=["/verif/shadow/lxml (symdom)"]),
     Obl(name="search_pos_pat0", module="h_repl", func="search_pos", shadow=True, timeout=200, env={"VERIF_PAT": "0"}, extra={"pat": 0}, replay="r_h_repl:search_pos", weight=25,
         bounds="search/search_first/search_all/match/text_recursive on <p>t0<span>t1</span>ab</p>, pattern 'a'",
         encodes=["src/odfdo/element.py:Element.search,search_first,search_all,match,text_recursive,inner_text"], stubs=["/verif/shadow/lxml (symdom)"]),
